@@ -16,3 +16,14 @@ Theorem C11_szdd_open_extract_junk_independent : forall (o : oracle) j1 j2 fuel,
   run o mon0 (script_open_extract j1 fuel) = run o mon0 (script_open_extract j2 fuel).
 Proof. exact szdd_open_extract_junk_independent. Qed.
 Print Assumptions C11_szdd_open_extract_junk_independent.
+
+From MSP Require Import L2.Kwaj Proofs.KwajJunk.
+(* the KWAJ front end: header reader, NONE / XOR copy loop, SZDD method; the LZH / MSZIP decoders are parameters (the same program on both sides) *)
+Theorem C11_kwaj_decompress_junk_independent : forall fuel lzh mszip (o : oracle) j1 j2,
+  run o mon0 (kscript_decompress j1 fuel lzh mszip) = run o mon0 (kscript_decompress j2 fuel lzh mszip).
+Proof. exact kwaj_junk_independent. Qed.
+Theorem C11_kwaj_open_extract_junk_independent : forall fuel lzh mszip (o : oracle) j1 j2,
+  run o mon0 (kscript_open_extract j1 fuel lzh mszip) = run o mon0 (kscript_open_extract j2 fuel lzh mszip).
+Proof. exact kwaj_open_extract_junk_independent. Qed.
+Print Assumptions C11_kwaj_decompress_junk_independent.
+Print Assumptions C11_kwaj_open_extract_junk_independent.
